@@ -186,7 +186,7 @@ def lockstep_cat(loc, exp, got, ref):
 
 
 def replay(data):
-    return dict(evaluations=0, violations=[])
+    return dict(evaluations=0, violations=[], not_replayable='this cluster is described in full by the file; it has no executable replay')
 
 
 def finish(agg, tier, seed):
